@@ -18,7 +18,8 @@ class CHECK(Check):
     theorems = ["C11_write_shape", "C11_read_tokens", "C11_no_carry_over", "C11_split_join", "C11_roundtrip", "C11_token_values", "C11_short_line"]
     rule = ("delimited layouts of 1-6 fields of mixed kinds x delimiters {; , | :: TAB ' ; ' ab} x fitting value lists whose "
             "renderings contain neither the delimiter nor surrounding blanks (checked per case, others are counted and "
-            "skipped) x sequences of 1-6 successive reads through the same Line object: the written line as is, with "
+            "skipped) x sequences of 1-6 successive reads through the same Line object, through a new Line object over the same "
+            "Field objects per call (as Register.read does), or reads only: the written line as is, with "
             "random blank padding around tokens, truncated to fewer tokens (short), extended with surplus tokens (long), "
             "and lines of garbage tokens; after every read all values are compared. non-trivial = the sequence contains "
             "a short line after a longer one, or padding; distinct = hash")
@@ -34,7 +35,9 @@ class CHECK(Check):
                 vals = [fl.gen_value(rng, fd) for fd in fs]
                 kind = rng.choice(["exact", "exact", "padded", "short", "short", "long", "garbage"])
                 lines.append({"values": vals, "kind": kind, "k": rng.randint(0, max(0, len(fs) - 1)), "seed": rng.getrandbits(30)})
-            yield {"fields": fs, "delim": d, "lines": lines}
+            # how the implementation is driven: one Line object for everything; a new Line object over the same Field objects for
+            # every write and every read (what Register.read does with its class-level fields); reads only, no write in between
+            yield {"fields": fs, "delim": d, "lines": lines, "via": rng.choice(["line", "line", "fresh", "fresh", "readonly"])}
 
     @staticmethod
     def derive_text(case, ln, written):
@@ -57,16 +60,21 @@ class CHECK(Check):
 
     def impl(self, case):
         from cfinterface.components.line import Line
-        line = Line([fl.mk_field(fd) for fd in case["fields"]], delimiter=case["delim"])
+        flds = [fl.mk_field(fd) for fd in case["fields"]]
+        via = case.get("via", "line")
+        line = Line(flds, delimiter=case["delim"])
         out = []
         for ln in case["lines"]:
-            try:
-                w = line.write([fl.py_value(v) for v in ln["values"]])
-            except OverflowError:
-                out.append({"raised": "OverflowError"})
-                continue
+            if via == "readonly":
+                w = case["delim"].join(rendering(fd, v).strip() for fd, v in zip(case["fields"], ln["values"])) + "\n"
+            else:
+                try:
+                    w = (Line(flds, delimiter=case["delim"]) if via == "fresh" else line).write([fl.py_value(v) for v in ln["values"]])
+                except OverflowError:
+                    out.append({"raised": "OverflowError"})
+                    continue
             text = self.derive_text(case, ln, w)
-            r = line.read(text)
+            r = (Line(flds, delimiter=case["delim"]) if via == "fresh" else line).read(text)
             out.append({"written": w, "text": text, "read": [fl.canon_value(x) for x in r]})
         return out
 
@@ -141,7 +149,7 @@ class CHECK(Check):
         return "padded" in ks or any(k == "short" for k in ks[1:])
 
     def classify(self, case):
-        d = {"fields_%d" % len(case["fields"]): 1, "lines_%d" % len(case["lines"]): 1, "delim_len_%d" % len(case["delim"]): 1}
+        d = {"fields_%d" % len(case["fields"]): 1, "lines_%d" % len(case["lines"]): 1, "delim_len_%d" % len(case["delim"]): 1, "via_" + case.get("via", "line"): 1}
         for ln in case["lines"]:
             d["line_" + ln["kind"]] = d.get("line_" + ln["kind"], 0) + 1
         return d
